@@ -27,6 +27,9 @@ type PropSpec struct {
 	Assume    []string `json:"assumptions,omitempty"`
 	Extra     []string `json:"extra_cmds,omitempty"`
 	Static    []string `json:"static,omitempty"` // e.g. "immutable:PFCPConn.ts.local"
+	// AlsoLabels: label prefixes of another property whose clauses this property relies on as well
+	// (e.g. C05 needs the rule-list removals of C03 to return exactly the removed rule).
+	AlsoLabels []string `json:"also_labels,omitempty"`
 }
 
 type KnownFinding struct {
@@ -133,7 +136,13 @@ func cmdCheck(args []string) {
 			var keep []*Obligation
 			for _, o := range r.Obls {
 				if o.Label != "" && isPropLabel(o.Label) && !strings.HasPrefix(o.Label, *prop+".") {
-					continue
+					also := false
+					for _, al := range ps.AlsoLabels {
+						also = also || strings.HasPrefix(o.Label, al)
+					}
+					if !also {
+						continue
+					}
 				}
 				keep = append(keep, o)
 			}
